@@ -685,6 +685,8 @@ class Interp:
             found, g, _ = v._cls.lookup('__get__')
             if found:
                 return self.call(g, [v, inst, cls], [])
+        if getattr(v, '_vf_function_like', False):
+            return v._vf_bind(inst) if inst is not None else v
         return v
 
     def getattr_inst(self, inst, name):
